@@ -239,7 +239,84 @@ func (d *dbm) close() {
 type lenKey struct{ v ssa.Value }
 type capKey struct{ v ssa.Value }
 
+// Local struct cells: a local struct variable whose address never leaves the function (its fields are read and
+// written through &x.f, the whole value is loaded, stored, returned) is tracked field by field: one variable per
+// integer field. A struct *value* (a call result, a load of such a local) carries one variable per integer field
+// too, so that `m := scan(b, i); … use(b, m.end)` keeps what scan established about `end`.
+type cellKey struct {
+	a *ssa.Alloc
+	f int
+}
+type sfieldKey struct {
+	v ssa.Value
+	f int
+}
+
+// intFields: the indices of the integer fields of a small struct type (nil if t is not one).
+func intFields(t types.Type) []int {
+	st, ok := t.Underlying().(*types.Struct)
+	if !ok || st.NumFields() == 0 || st.NumFields() > 8 {
+		return nil
+	}
+	var out []int
+	for i := 0; i < st.NumFields(); i++ {
+		if isAnyInt(st.Field(i).Type()) {
+			out = append(out, i)
+		}
+	}
+	return out
+}
+
+// localCell: a is a struct local with integer fields whose address is used only to address fields that are loaded
+// and stored, and to load, store or (through a load) return the whole value.
+func localCell(a *ssa.Alloc) []int {
+	pt, ok := a.Type().Underlying().(*types.Pointer)
+	if !ok {
+		return nil
+	}
+	fs := intFields(pt.Elem())
+	if fs == nil || a.Referrers() == nil {
+		return nil
+	}
+	for _, ref := range *a.Referrers() {
+		switch x := ref.(type) {
+		case *ssa.DebugRef:
+		case *ssa.UnOp:
+			if x.Op != token.MUL {
+				return nil
+			}
+		case *ssa.Store:
+			if x.Addr != ssa.Value(a) {
+				return nil // the address itself is stored
+			}
+		case *ssa.FieldAddr:
+			if x.Referrers() == nil {
+				continue
+			}
+			for _, r2 := range *x.Referrers() {
+				switch y := r2.(type) {
+				case *ssa.DebugRef:
+				case *ssa.UnOp:
+					if y.Op != token.MUL {
+						return nil
+					}
+				case *ssa.Store:
+					if y.Addr != ssa.Value(x) {
+						return nil
+					}
+				default:
+					return nil
+				}
+			}
+		default:
+			return nil
+		}
+	}
+	return fs
+}
+
 type boundsFn struct {
+	cells  map[*ssa.Alloc][]int
 	rep    map[ssa.Value]ssa.Value // pure load -> first load of the same immutable location
 	pure   map[ssa.Value]bool      // representatives of immutable locations (never forgotten)
 	alias  map[ssa.Value]ssa.Value // BinOp -> dominating identical BinOp (go/ssa does no CSE)
@@ -807,6 +884,28 @@ func (b *boundsFn) collectVars() {
 	for _, fv := range b.fn.FreeVars {
 		add(fv)
 	}
+	b.cells = map[*ssa.Alloc][]int{}
+	for _, blk := range b.fn.Blocks {
+		for _, in := range blk.Instrs {
+			switch x := in.(type) {
+			case *ssa.Alloc:
+				if fs := localCell(x); fs != nil {
+					b.cells[x] = fs
+					for _, f := range fs {
+						b.varOf(cellKey{x, f}, fmt.Sprintf("%s.#%d", x.Name(), f))
+					}
+				}
+			}
+			if v, ok := in.(ssa.Value); ok {
+				switch in.(type) {
+				case *ssa.Call, *ssa.Extract, *ssa.UnOp:
+					for _, f := range intFields(v.Type()) {
+						b.varOf(sfieldKey{v, f}, fmt.Sprintf("%s.#%d", v.Name(), f))
+					}
+				}
+			}
+		}
+	}
 	for _, blk := range b.fn.Blocks {
 		for _, in := range blk.Instrs {
 			if v, ok := in.(ssa.Value); ok {
@@ -916,12 +1015,19 @@ func (b *boundsFn) transfer(d *dbm, in ssa.Instruction) {
 	if d.bottom {
 		return
 	}
+	if st, isStore := in.(*ssa.Store); isStore {
+		b.transferStore(d, st)
+		return
+	}
 	v, isVal := in.(ssa.Value)
 	if !isVal {
 		return
 	}
 	if _, isPhi := in.(*ssa.Phi); isPhi {
 		return // handled on edges
+	}
+	if b.transferCell(d, in) {
+		return
 	}
 	if _, isAlias := b.alias[v]; isAlias {
 		return // same value as a dominating identical operation
@@ -1349,7 +1455,9 @@ func (b *boundsFn) transfer(d *dbm, in ssa.Instruction) {
 }
 
 type boundsSummary struct {
-	// constraints over [zero, len(param_i)/param_i ..., result_j / len(result_j)]
+	// constraints over [zero, len(param_i)/param_i ..., result_j / len(result_j), then the integer fields of
+	// struct results (extra: result index, field index)]
+	extra        [][2]int
 	nparam, nres int
 	m            *dbm // indices: 0 zero; 1..nparam params (int value or len); then results
 	ok           bool
@@ -1476,6 +1584,12 @@ func (b *boundsFn) transferCall(d *dbm, c *ssa.Call) {
 	}
 	b.forgetValue(d, v)
 	b.typeFacts(d, v)
+	for _, f := range intFields(v.Type()) {
+		if fv, has := b.vars[sfieldKey{v, f}]; has {
+			d.forget(fv)
+			b.fieldTypeFacts(d, fv, v.Type(), f)
+		}
+	}
 }
 
 func (b *boundsFn) forgetValueKeep(d *dbm, v ssa.Value, then func()) {
@@ -1557,6 +1671,12 @@ func (b *boundsFn) applySummary(d *dbm, c *ssa.Call, s *boundsSummary) {
 	v := ssa.Value(c)
 	b.forgetValue(d, v)
 	b.typeFacts(d, v)
+	for _, f := range intFields(v.Type()) {
+		if fv, has := b.vars[sfieldKey{v, f}]; has {
+			d.forget(fv)
+			b.fieldTypeFacts(d, fv, v.Type(), f)
+		}
+	}
 	if s.nres == 1 {
 		b.applySummaryResult(d, c, s, 0, v)
 	}
@@ -1567,11 +1687,28 @@ func (b *boundsFn) applySummaryResult(d *dbm, c *ssa.Call, s *boundsSummary, ri 
 }
 
 func (b *boundsFn) applySummaryMatrix(d *dbm, c *ssa.Call, s *boundsSummary, m *dbm, ri int, res ssa.Value) {
-	rv, _, _ := b.summaryVarOfValue(res)
-	if rv < 0 || ri >= s.nres || m == nil {
+	if m == nil || ri >= s.nres {
 		return
 	}
-	sr := 1 + s.nparam + ri
+	// integer fields of a struct result
+	for xi, e := range s.extra {
+		if e[0] != ri {
+			continue
+		}
+		if fv, has := b.vars[sfieldKey{res, e[1]}]; has {
+			d.forget(fv)
+			b.fieldTypeFacts(d, fv, res.Type(), e[1])
+			b.applySummarySlot(d, c, s, m, 1+s.nparam+s.nres+xi, fv)
+		}
+	}
+	rv, _, _ := b.summaryVarOfValue(res)
+	if rv < 0 {
+		return
+	}
+	b.applySummarySlot(d, c, s, m, 1+s.nparam+ri, rv)
+}
+
+func (b *boundsFn) applySummarySlot(d *dbm, c *ssa.Call, s *boundsSummary, m *dbm, sr, rv int) {
 	// against zero
 	if x := m.get(sr, 0); x < bInf {
 		d.add(rv, 0, x)
@@ -2353,10 +2490,125 @@ func (b *boundsFn) sliceOb(d *dbm, x *ssa.Slice, count map[string]int) boundsOb 
 }
 
 // summary of fn over zero, params, results
+// fieldVarType: basic facts of a struct field variable.
+func (b *boundsFn) fieldTypeFacts(d *dbm, vi int, t types.Type, f int) {
+	st, ok := t.Underlying().(*types.Struct)
+	if !ok || f >= st.NumFields() {
+		return
+	}
+	if lo, hi, has := typeRange(st.Field(f).Type()); has {
+		d.add(0, vi, -lo)
+		if hi < bInf {
+			d.add(vi, 0, hi)
+		}
+	}
+}
+
+// transferStore: stores into a local struct cell (strong updates: the cell's address does not escape).
+func (b *boundsFn) transferStore(d *dbm, st *ssa.Store) {
+	if fa, ok := st.Addr.(*ssa.FieldAddr); ok {
+		if a, isA := fa.X.(*ssa.Alloc); isA && b.cells[a] != nil {
+			ci, has := b.vars[cellKey{a, fa.Field}]
+			if !has {
+				return
+			}
+			vi, c, isC := b.intVar(st.Val)
+			switch {
+			case isC:
+				d.forget(ci)
+				d.add(ci, 0, c)
+				d.add(0, ci, -c)
+			case vi >= 0:
+				d.assign(ci, vi, 0)
+			default:
+				d.forget(ci)
+				b.fieldTypeFacts(d, ci, derefType(a.Type()), fa.Field)
+			}
+		}
+		return
+	}
+	if a, isA := st.Addr.(*ssa.Alloc); isA && b.cells[a] != nil {
+		for _, f := range b.cells[a] {
+			ci := b.vars[cellKey{a, f}]
+			if k, isK := st.Val.(*ssa.Const); isK && k.Value == nil {
+				d.forget(ci)
+				d.add(ci, 0, 0)
+				d.add(0, ci, 0)
+				continue
+			}
+			if src, has := b.vars[sfieldKey{st.Val, f}]; has {
+				d.assign(ci, src, 0)
+			} else {
+				d.forget(ci)
+				b.fieldTypeFacts(d, ci, derefType(a.Type()), f)
+			}
+		}
+	}
+}
+
+// transferCell: value instructions that read or create local struct cells / struct values. Reports whether the
+// instruction was handled completely.
+func (b *boundsFn) transferCell(d *dbm, in ssa.Instruction) bool {
+	switch x := in.(type) {
+	case *ssa.Alloc:
+		for _, f := range b.cells[x] {
+			ci := b.vars[cellKey{x, f}]
+			d.forget(ci)
+			d.add(ci, 0, 0)
+			d.add(0, ci, 0)
+		}
+		return false
+	case *ssa.UnOp:
+		if x.Op != token.MUL {
+			return false
+		}
+		if fa, ok := x.X.(*ssa.FieldAddr); ok {
+			if a, isA := fa.X.(*ssa.Alloc); isA && b.cells[a] != nil {
+				if ci, has := b.vars[cellKey{a, fa.Field}]; has {
+					if vi, ok2 := b.vars[ssa.Value(x)]; ok2 {
+						d.assign(vi, ci, 0)
+						return true
+					}
+				}
+			}
+			return false
+		}
+		if a, isA := x.X.(*ssa.Alloc); isA && b.cells[a] != nil {
+			for _, f := range b.cells[a] {
+				if vi, has := b.vars[sfieldKey{ssa.Value(x), f}]; has {
+					d.assign(vi, b.vars[cellKey{a, f}], 0)
+				}
+			}
+			return true
+		}
+		// a struct value loaded from somewhere else: nothing known about its fields
+		for _, f := range intFields(x.Type()) {
+			if vi, has := b.vars[sfieldKey{ssa.Value(x), f}]; has {
+				d.forget(vi)
+				b.fieldTypeFacts(d, vi, x.Type(), f)
+			}
+		}
+		return false
+	case *ssa.Field:
+		if src, has := b.vars[sfieldKey{x.X, x.Field}]; has {
+			if vi, ok := b.vars[ssa.Value(x)]; ok {
+				d.assign(vi, src, 0)
+				return true
+			}
+		}
+	}
+	return false
+}
+
 func (b *boundsFn) summary() *boundsSummary {
 	sig := b.fn.Signature
 	s := &boundsSummary{nparam: len(b.fn.Params), nres: sig.Results().Len()}
-	n := 1 + s.nparam + s.nres
+	for j := 0; j < sig.Results().Len(); j++ {
+		for _, f := range intFields(sig.Results().At(j).Type()) {
+			s.extra = append(s.extra, [2]int{j, f})
+		}
+	}
+	n := 1 + s.nparam + s.nres + len(s.extra)
 	var acc *dbm
 	for _, blk := range b.fn.Blocks {
 		ret, ok := lastInstr(blk).(*ssa.Return)
@@ -2386,6 +2638,14 @@ func (b *boundsFn) summary() *boundsSummary {
 			for i, rv := range ret.Results {
 				vi, c, k := b.summaryVarOfValue(rv)
 				ents[1+s.nparam+i] = ent{vi, c, k}
+			}
+			for xi, e := range s.extra {
+				ents[1+s.nparam+s.nres+xi] = ent{v: -1}
+				if e[0] < len(ret.Results) {
+					if vi, has := b.vars[sfieldKey{ret.Results[e[0]], e[1]}]; has {
+						ents[1+s.nparam+s.nres+xi] = ent{v: vi}
+					}
+				}
 			}
 			for i := 0; i < n; i++ {
 				for j := 0; j < n; j++ {
